@@ -195,7 +195,10 @@ class FnCtx:
         sig = ref.get('type', {}).get('qualType', '')
         t = self.lw.te.parse(sig)
         ps = t.params if t.kind == 'func' else []
-        return 'X_%s__%s' % (sanitize(OPNAMES.get(name, name)), self.lw.sig_suffix([repr(p) for p in ps]))
+        base = 'X_%s__%s' % (sanitize(OPNAMES.get(name, name)), self.lw.sig_suffix([repr(p) for p in ps]))
+        if name in self.lw.cfg.get('ext_overload_by_ret', []) and t.kind == 'func':
+            base += '__to_' + self.lw.sig_suffix([repr(t.ret)])     # e.g. std::get<T>: distinguished by explicit template argument
+        return base
 
     def e_MemberExpr(self, n):
         base = kids(n)[0]
@@ -623,7 +626,7 @@ class FnCtx:
                     else:
                         self.err(n, 'default argument expression not available')
                 else:
-                    self.err(n, 'default argument of an external callee')
+                    continue        # external (modelled) callee: defaulted trailing arguments are not passed to the model
             if is_glvalue(a):
                 out.append(self.addr(a))
             elif self.is_class_prvalue(a):
@@ -723,6 +726,8 @@ class FnCtx:
                 fname = self.func_name(ref)
         al = self.call_args(args, f, n)
         full = ([obj] if obj is not None else []) + al
+        if f is not None and fname == f.cname and fname in self.lw.cfg.get('rec_twin', []):
+            fname += '__rec'        # (mutually) recursive call: goes through the contract twin, see Emitter.lower_func
         if self.is_class_prvalue(n):
             if dest is None:
                 return self.materialize(n)
